@@ -32,6 +32,8 @@ Fourth round: git-refs-read-through-container — outside transportgit.py/refs.p
 ref lookup must see loose and packed refs alike). master-tag-merge-unless-source-is-master — GenericInterBranch.pull passes
 merge_tags_to_master=not <source is master> (or True), nothing else. git-push-tag-conflict-live — _update_pure_git_refs (bzr -> git push) has
 an append to result.tag_conflicts whose enclosing guards are not constants (today: KNOWN FINDING, the guard is `diverged = False`).
+tip-move-keeps-master-object — while Branch._clear_cached_state drops _master_branch_cache, BzrBranch.set_last_revision_info assigns it
+back (non-constant) on every normal path after the reset: pull locks the master object once, the tag merge asks for it again.
 Does not decide: bencode correctness (library); git tag stores beyond the shared reconcile function.
 """
 
@@ -207,6 +209,19 @@ def run(ctx):
             if isinstance(t_, ast.Constant) and not t_.value:
                 dead.append(norm(t_))
     ctx.check("git-push-tag-conflict-live", wup, bool(apps) and not dead, "the ref update of a bzr -> git push can reach its tag-conflict report (the guard is not a constant)", construct=f"guard {dead}" if dead else "no append to result.tag_conflicts", message=f"_update_pure_git_refs can never report a tag conflict ({'the guard `' + dead[0] + '` is only ever assigned a false constant' if dead else 'nothing is appended to result.tag_conflicts'}) and starts from an empty result dictionary, so `ref not in ret` holds for every ref: a push from a bzr branch to a git branch rewrites a destination tag whose definition differs, without --overwrite and without a conflict")
+    # ---- fourth round: moving the tip of a write-locked bound branch keeps the master object it hands out -----------------
+    BB = "breezy/bzr/branch.py"
+    fcl = repo.func("breezy/branch.py", "Branch._clear_cached_state")
+    drops = any(isinstance(s_, ast.Assign) and any(norm(t) == "self._master_branch_cache" for t in s_.targets) for s_ in walk_own(fcl))
+    fsl = repo.func(BB, "BzrBranch.set_last_revision_info")
+    gsl = _bcfg(fsl)
+    clears = _calling(gsl, attr="_clear_cached_state")
+    ctx.require(bool(clears), f"{BB}:BzrBranch.set_last_revision_info: the call of _clear_cached_state was not found")
+    from ..cfg import assigns_to as _assigns_to
+
+    restores = [n for n in gsl.find(_assigns_to("self._master_branch_cache")) if not (isinstance(gsl.nodes[n].ast, ast.Assign) and isinstance(gsl.nodes[n].ast.value, ast.Constant))]
+    ok_keep = (not drops) or gsl.always_after(clears, restores, exits=[gsl.exit])[0]
+    ctx.check("tip-move-keeps-master-object", f"{BB}:BzrBranch.set_last_revision_info", ok_keep, "after the cache reset of a tip move the cached master branch object is put back (the bound location did not change)", construct="self._clear_cached_state()", message="set_last_revision_info drops _master_branch_cache with the other caches: GenericInterBranch.pull holds the object get_master_branch() gave it write-locked, the tag merge that follows asks get_master_branch() again, gets a second object for the same master and dies with LockContention — the pull of a source with new revisions and tags into a bound branch updates the master and leaves the bound branch without the source's tags")
     # ---- fourth round: the tag merge into the master is switched off only when the source IS the master -----------------
     BR = "breezy/branch.py"
     fgp = repo.func(BR, "GenericInterBranch.pull")
@@ -222,6 +237,7 @@ def run(ctx):
 
 
 MUTANTS = [
+    Mutant("tip move drops the cached master object again (fix reverted)", "breezy/bzr/branch.py", "            self._master_branch_cache = master_branch\n", "", expect="tip-move-keeps-master-object"),
     Mutant("git tag merge looks the destination tag up among loose refs only", "breezy/git/branch.py", "            elif overwrite or ref_name not in target_repo._git.refs:\n", "            elif overwrite or target_repo._git.refs.read_loose_ref(ref_name) is None:\n", expect="git-refs-read-through-container"),
     Mutant("master tag merge skipped for every bound pull", "breezy/branch.py", "                merge_tags_to_master=not source_is_master,\n", "                merge_tags_to_master=not bound_location,\n", expect="master-tag-merge-unless-source-is-master"),
     Mutant("git pull forgets the tag selector", "breezy/git/branch.py", "                (\"tags\" in overwrite),\n                ignore_master=True,\n                selector=tag_selector,\n", "                (\"tags\" in overwrite),\n                ignore_master=True,\n", expect="tag-selector-passed-through"),
